@@ -23,6 +23,8 @@ pub enum HOp {
     /// blob extraction into a caller-supplied writer that fails after k bytes (the operation fails; what
     /// matters is that nothing of it survives in the reader)
     BlobFailingSink(usize, usize),
+    /// a descriptor the caller made itself (Blob::new): same start as blob i, another length
+    BlobOtherLength(usize, u64),
     Meta,
 }
 
@@ -32,6 +34,7 @@ fn kind(op: &HOp) -> &'static str {
         HOp::Simple(..) => "simple",
         HOp::Blob(..) => "blob",
         HOp::BlobFailingSink(..) => "blob-failing-sink",
+        HOp::BlobOtherLength(..) => "blob-other-length",
         HOp::Meta => "meta",
     }
 }
@@ -95,6 +98,10 @@ fn exec<T: std::io::Read + std::io::Seek>(rd: &mut E57Reader<T>, pcs: &[PointClo
         match op {
             HOp::Meta => format!("ok:{:016x}", crate::json::fnv64(meta_lines(rd, true).join("\n").as_bytes())),
             HOp::Blob(i) => match read_blob(rd, &blobs[*i]) {
+                Ok((n, d)) => format!("ok:{}:{:016x}", n, crate::json::fnv64(&d)),
+                Err(e) => format!("err:{}", e),
+            },
+            HOp::BlobOtherLength(i, len) => match read_blob(rd, &Blob::new(blobs[*i].offset, *len)) {
                 Ok((n, d)) => format!("ok:{}:{:016x}", n, crate::json::fnv64(&d)),
                 Err(e) => format!("err:{}", e),
             },
@@ -214,6 +221,10 @@ pub fn run(a: &Args, rep: &mut Reporter) {
                 6 if !blobs.is_empty() => {
                     if r.bool() {
                         HOp::Blob(r.usize(blobs.len()))
+                    } else if r.bool() {
+                        let i = r.usize(blobs.len());
+                        let l = blobs[i].length;
+                        HOp::BlobOtherLength(i, *r.pick(&[0u64, 1, 16, l / 2, l.saturating_sub(1), l + 1, l + 17, l * 2 + 5]))
                     } else {
                         HOp::BlobFailingSink(r.usize(blobs.len()), *r.pick(&[0usize, 1, 100, 1019, 1020, 1500]))
                     }
